@@ -453,7 +453,26 @@ func parenDepth(s string) int {
 var specHdr = regexp.MustCompile(`^([A-Za-z_][A-Za-z0-9_]*)\s*\(([^)]*)\)\s*([^:]*?)\s*:=\s*((?s).*)$`)
 
 func parseSpec(s string) (*Spec, error) {
-	m := specHdr.FindStringSubmatch(s)
+	// name ( params ) result := body   — params may contain parenthesised SMT sorts
+	var m []string
+	if i := strings.Index(s, "("); i > 0 {
+		d, j := 0, i
+		for ; j < len(s); j++ {
+			if s[j] == '(' {
+				d++
+			} else if s[j] == ')' {
+				d--
+				if d == 0 {
+					break
+				}
+			}
+		}
+		if j < len(s) {
+			if k := strings.Index(s[j:], ":="); k >= 0 {
+				m = []string{s, strings.TrimSpace(s[:i]), s[i+1 : j], strings.TrimSpace(s[j+1 : j+k]), s[j+k+2:]}
+			}
+		}
+	}
 	if m == nil {
 		return nil, fmt.Errorf("want 'name(params) result := expr', got %q", s)
 	}
